@@ -87,7 +87,88 @@ CONTRACTS = {
 
  M + '_get_sum_lec_abs_diff': dict(
     params=PA, requires=PRE,
-    loops={0: dict(invariant=['sum_lec_abs_diff == Sum(k, _k, lec_abs_diffs[k])'])},
+    defs={'dev': (['k'], 'abs(Count(q, len(pair_assignments), pair_assignments[q].lecturer_index == k) - self.lec_targets[k])')},
+    loops={0: dict(invariant=['sum_lec_abs_diff == Sum(k, _k, dev(k))'])},
     returns='int',
-    ensures=[('sum', 'exists_list(D, len(D) == self.num_lecturers and forall(k, 0, self.num_lecturers, D[k] == abs(Count(q, len(pair_assignments), pair_assignments[q].lecturer_index == k) - self.lec_targets[k])) and result == Sum(k, self.num_lecturers, D[k]))')]),
+    ensures=[('sum-of-deviations', 'result == Sum(k, self.num_lecturers, dev(k))')]),
+
+ # the printed matching line: entry i is the project of student i+1's (last) matched pair, 0 when there is none
+ M + '_get_matching_string': dict(
+    params=PA, requires=PRE,
+    defs={'entry_ok': (['Mi', 'i', 'upto'], '(Mi == 0 and forall(q, 0, upto, pair_assignments[q].student_index != i)) or '
+                       'exists(q, 0, upto, pair_assignments[q].student_index == i and Mi == pair_assignments[q].projectID '
+                       'and forall(q2, q + 1, upto, pair_assignments[q2].student_index != i))')},
+    loops={0: dict(invariant=['len(matching) == self.num_students',
+                              'forall(i, 0, self.num_students, entry_ok(int(matching[i]), i, _k))'])},
+    returns=('joinstr', ' ', 'strint'),
+    ensures=[('blank-separated-one-entry-per-student', 'len(joined(result)) == self.num_students'),
+             ('entries', 'forall(i, 0, self.num_students, entry_ok(int(joined(result)[i]), i, len(pair_assignments)))')]),
+
+ # size = number of students that have a matched pair
+ M + '_get_matching_size': dict(
+    params=PA, requires=PRE + [('project-ids-positive', 'forall(q, 0, len(pair_assignments), pair_assignments[q].projectID >= 1)')],
+    defs={'assigned': (['i', 'upto'], 'exists(q, 0, upto, pair_assignments[q].student_index == i)')},
+    loops={0: dict(invariant=['len(matching) == self.num_students',
+                              'forall(i, 0, self.num_students, (int(matching[i]) != 0) == assigned(i, _k))'])},
+    use_lemmas={'return': [('SUM/ext', {'f': "lam(i, self.num_students, ite(matching[i] == '0', 1, 0))",
+                                        'g': 'lam(i, self.num_students, ite(not assigned(i, len(pair_assignments)), 1, 0))',
+                                        'n': 'self.num_students'})]},
+    returns='int',
+    ensures=[('number-of-assigned-students', 'result == self.num_students - Count(i, self.num_students, not assigned(i, len(pair_assignments)))')]),
+
+
+ # ---- C06: the stability checker and its helpers
+ M + 'get_num_assignments_projects': dict(
+    params=PAN, requires=NPRE,
+    loops={0: dict(invariant=['len(num_assignments) == self.num_projects',
+                              'forall(j, 0, self.num_projects, num_assignments[j] == Count(q, _k, pair_assignments_with_none[q] != None and pair_assignments_with_none[q].project_index == j))'])},
+    returns=('list', 'int'),
+    ensures=[('one-per-project', 'len(result) == self.num_projects'),
+             ('loads', 'forall(j, 0, self.num_projects, result[j] == loadP(pair_assignments_with_none, j))')]),
+ M + 'get_num_assignments_lecturers': dict(
+    params=PAN, requires=NPRE,
+    loops={0: dict(invariant=['len(num_assignments) == self.num_lecturers',
+                              'forall(j, 0, self.num_lecturers, num_assignments[j] == Count(q, _k, pair_assignments_with_none[q] != None and pair_assignments_with_none[q].lecturer_index == j))'])},
+    returns=('list', 'int'),
+    ensures=[('one-per-lecturer', 'len(result) == self.num_lecturers'),
+             ('loads', 'forall(k, 0, self.num_lecturers, result[k] == loadL(pair_assignments_with_none, k))')]),
+ M + 'get_worst_rank_projects': dict(
+    params=PAN, requires=NPRE + [('two-sided', "forall(q, 0, len(pair_assignments_with_none), implies(pair_assignments_with_none[q] != None, has(pair_assignments_with_none[q], 'rank_lecturer')))")],
+    defs={'at': (['q', 'j'], 'pair_assignments_with_none[q] != None and pair_assignments_with_none[q].project_index == j')},
+    loops={0: dict(invariant=['len(worst_ranks) == self.num_projects',
+        'forall(j, 0, self.num_projects, opt_is_none(worst_ranks[j]) == forall(q, 0, _k, not at(q, j)))',
+        'forall(j, 0, self.num_projects, implies(not opt_is_none(worst_ranks[j]), '
+        'forall(q, 0, _k, implies(at(q, j), pair_assignments_with_none[q].rank_lecturer <= opt_val(worst_ranks[j])))'
+        ' and exists(q, 0, _k, at(q, j) and pair_assignments_with_none[q].rank_lecturer == opt_val(worst_ranks[j]))))'])},
+    returns=('list', 'optint'),
+    ensures=[('one-per-project', 'len(result) == self.num_projects'),
+             ('none-iff-no-assignee', 'forall(j, 0, self.num_projects, opt_is_none(result[j]) == (not someone_at_P(pair_assignments_with_none, j)))'),
+             ('worst-rank', 'forall(j, 0, self.num_projects, implies(not opt_is_none(result[j]), '
+                            'forall(q, 0, len(pair_assignments_with_none), implies(at(q, j), pair_assignments_with_none[q].rank_lecturer <= opt_val(result[j])))'
+                            ' and exists(q, 0, len(pair_assignments_with_none), at(q, j) and pair_assignments_with_none[q].rank_lecturer == opt_val(result[j]))))')]),
+ M + 'get_worst_rank_lecturers': dict(
+    params=PAN, requires=NPRE + [('two-sided', "forall(q, 0, len(pair_assignments_with_none), implies(pair_assignments_with_none[q] != None, has(pair_assignments_with_none[q], 'rank_lecturer')))")],
+    defs={'at': (['q', 'j'], 'pair_assignments_with_none[q] != None and pair_assignments_with_none[q].lecturer_index == j')},
+    loops={0: dict(invariant=['len(worst_ranks) == self.num_lecturers',
+        'forall(j, 0, self.num_lecturers, opt_is_none(worst_ranks[j]) == forall(q, 0, _k, not at(q, j)))',
+        'forall(j, 0, self.num_lecturers, implies(not opt_is_none(worst_ranks[j]), '
+        'forall(q, 0, _k, implies(at(q, j), pair_assignments_with_none[q].rank_lecturer <= opt_val(worst_ranks[j])))'
+        ' and exists(q, 0, _k, at(q, j) and pair_assignments_with_none[q].rank_lecturer == opt_val(worst_ranks[j]))))'])},
+    returns=('list', 'optint'),
+    ensures=[('one-per-lecturer', 'len(result) == self.num_lecturers'),
+             ('none-iff-no-assignee', 'forall(j, 0, self.num_lecturers, opt_is_none(result[j]) == (not someone_at_L(pair_assignments_with_none, j)))'),
+             ('worst-rank', 'forall(j, 0, self.num_lecturers, implies(not opt_is_none(result[j]), '
+                            'forall(q, 0, len(pair_assignments_with_none), implies(at(q, j), pair_assignments_with_none[q].rank_lecturer <= opt_val(result[j])))'
+                            ' and exists(q, 0, len(pair_assignments_with_none), at(q, j) and pair_assignments_with_none[q].rank_lecturer == opt_val(result[j]))))')]),
+
+ M + 'check_stability': dict(
+    params=PAN,
+    requires=NPRE + ['pairs_ok(self)', 'two_sided(self)', 'len(pair_assignments_with_none) == self.num_students',
+                     ('two-sided-assignment', "forall(q, 0, len(pair_assignments_with_none), implies(pair_assignments_with_none[q] != None, has(pair_assignments_with_none[q], 'rank_lecturer')))")],
+    defs={'blk': (['i', 'c'], 'blocking(self, pair_assignments_with_none, self.pairs[i][c], pair_assignments_with_none[i])')},
+    loops={0: dict(invariant=['forall(i, 0, _k, forall(c, 0, len(self.pairs[i]), not blk(i, c)))']),
+           1: dict(invariant=['forall(i, 0, _k0, forall(c, 0, len(self.pairs[i]), not blk(i, c)))',
+                              'forall(c, 0, _k, not blk(_k0, c))'])},
+    returns='bool',
+    ensures=[('true-iff-no-blocking-pair', 'result == (not exists(i, 0, len(self.pairs), exists(c, 0, len(self.pairs[i]), blk(i, c))))')]),
 }
